@@ -47,7 +47,9 @@ def ENCODED():
     import ethosu.vela.scheduler as sch
 
     return [sch.Scheduler.propose_minimal_schedule, sch.Scheduler.propose_schedule_striping, hl.Box.transform_with_strides_and_skirt, hl.Box.__init__, go.calc_padding_and_skirt, go.calc_upscaled_padding_and_skirt,
-            gu.needed_total_padding, gu.calc_explicit_padding, h2n.create_padding, gen.generate_high_level_commands_for_sched_op]
+            gu.needed_total_padding, gu.calc_explicit_padding, h2n.create_padding, gen.generate_high_level_commands_for_sched_op,
+            __import__("ethosu.vela.register_command_stream_util", fromlist=["x"]).to_npu_kernel,
+            __import__("ethosu.vela.register_command_stream_util", fromlist=["x"]).to_kernel]
 
 
 def _mods():
